@@ -12,7 +12,7 @@ MANIFEST = dict(
 
 RULE = 'histories dense in duplicates (30%), equal sequence numbers across peers, retention expiries at random points'
 
-GEN = dict(weights=dict(dup=30, timeout=14, hb=8, est=12, mod=14), npeers=3, big_seids=False, p_alias=0.12)
+GEN = dict(weights=dict(dup=30, timeout=14, hb=8, est=12, mod=14), npeers=3, big_seids=False, p_alias=0.12, p_wfail_recv=0.08)
 N_QUICK, N_THOROUGH = 120, 3000
 
 
